@@ -13,8 +13,9 @@
     q0_xx          : full-inverse column `solve(e_max)[min]` as the C++ computes it outside the
                      envelope.  Inside the envelope the C++ reads the sparse inverse
                      `Envelope::inverse` (dense restatement: `Env.invRec`/`Env.zEntry`); in exact
-                     arithmetic both are `L⁻ᵀD⁺L⁻¹` — MODELLED (compared on every index pair by
-                     the C03 correspondence, max deviation 5e-15; `example`s in Props/C03/Env.lean);
+                     arithmetic both are `L⁻ᵀD⁺L⁻¹` — PROVED for all sizes
+                     (`C03_env_sparse_inverse_eq_full`, Props/C03/EnvInverse.lean; also compared on
+                     every index pair by the C03 correspondence, max deviation 5e-15);
     q_xx           : regular → `q0_xx`; singular → `solve_x` (may throw), `Σ a_k/d_k·b_k`;
     q_bb           : `ã_i · solve(ã_jᵀ)` (both C++ branches);
     q_bx           : throws `Exception::BadRegularization` ("q_bx not implemented");
@@ -28,8 +29,13 @@
   model computes the same reverse Cuthill–McKee ordering as the code (`Gama/Model/RCM.lean`,
   property C16) from the column pattern of the homogenised sparse matrix.
 
+  The ordering is the code's (`rcmOrd`) and valid: `C01_envsolve_ordering` (from C16's
+  `rcm_isPerm`); the homogenisation computes `(W A, W b)` with `WᵀW = C⁻¹`:
+  `C01_envsolve_homogenize` (from C10's theorems about the very kernels `homogenize` calls);
+  the theorems about `envSolve p` itself are in Props/C01/EnvSolve.lean, Props/C03/EnvSolve.lean,
+  Props/C02EnvSolve.lean.
   MODELLED (not verified here): profile/packed storage of the envelope = dense lower
-  triangle (C16); homogenisation computes `U⁻ᵀ[A b]` with `UᵀU = C` (C10).
+  triangle (C16).
 -/
 import Gama.Model.Ls.Common
 import Gama.Model.Ls.Env.Core
